@@ -149,6 +149,12 @@ func (d *decoder) discard(n int) {
 }
 
 func (d *decoder) read(n int) []byte {
+	if n < 0 || n > d.remain {
+		// The length prefix announces more bytes than the frame has left:
+		// fail instead of allocating a buffer of that size.
+		d.setError(io.ErrUnexpectedEOF)
+		return nil
+	}
 	b := make([]byte, n)
 	n, err := io.ReadFull(d, b)
 	b = b[:n]
